@@ -74,6 +74,21 @@ Theorem C42_prop_of_model_tampered_partial : forall i x,
 Proof. exact prop_C42_of_model_tampered. Qed.
 Print Assumptions C42_prop_of_model_tampered_partial.
 
+(* Completeness (the prefix can be everything): for every suite shape that exists in cipher_suites.go
+   (cfg_ok: CBC block size 8 or 16, explicit IV empty or one block, MAC + IV + AEAD overhead <= 2000) the
+   untouched stream is delivered completely, Read ends with io.EOF and the final sequence number is the
+   number of records; hence prop_C42 holds of the model on untampered inputs as well. *)
+Theorem C42_model_untampered : forall x, wf_C42 x = true -> cfg_ok (i_cfg x) = true ->
+  receive sbody sopen (i_cfg x) (orig_wire x) 0 =
+  (sent_bytes (i_writes x), 1, Z.of_nat (length (S_of x))).
+Proof. exact model_untampered. Qed.
+Print Assumptions C42_model_untampered.
+Theorem C42_prop_of_model_untampered : forall i x,
+  dec_C42 i = Some x -> wf_C42 x = true -> cfg_ok (i_cfg x) = true -> i_script x = [] -> i_cut x < 0 ->
+  prop_C42 i (run_C42 i) = true /\ kf_C42 i = 0.
+Proof. exact prop_C42_of_model_untampered. Qed.
+Print Assumptions C42_prop_of_model_untampered.
+
 (* Finding 1 (refutation of "every tampering is detected as an error"): dropping the last application
    record and the close_notify is reported as plain io.EOF. *)
 Theorem C42_tail_truncation_refuted : exists i x,
